@@ -12,7 +12,7 @@ from ..absint import Config, Interp, RaiseSig
 from ..harness import rule
 from ..index import AnalysisError
 from ..models import BASE_STUBS, mk_websocket
-from ..rulekit import WS_EXC, box_hit, dim_of, exc_is, flows_from, isym, ivals, new_dict, new_list, new_obj, origins, path_text
+from ..rulekit import WS_EXC, box_hit, dim_of, exc_is, flows_from, isym, ivals, new_dict, new_list, new_obj, ops_on_flow, origins, path_text
 from ..values import C, FALSE, NONE, TRUE, App, Cls, Ext, HObj, Ref, Sym, Tup, template_text
 
 REDIRECTS = (301, 302, 303, 307, 308)
@@ -172,6 +172,14 @@ def r2(ctx):
                 sha = [x for x in o.effects if x.name == "hashlib.sha1"]
                 b64 = [x for x in o.effects if "encodebytes" in x.name or "b64encode" in x.name]
                 okf = (k0 != k1) and (r0 != r1_) and (k0 != r0) and guid and len(sha) == 1 and bool(b64)
+                # base64 is case-sensitive: an operand that went through case folding (or any other lossy rewriting) makes
+                # different accept values compare equal
+                LOSSY = ("m:lower", "m:upper", "m:casefold", "m:swapcase", "m:title", "m:capitalize", "m:replace", "m:translate")
+                lossy = sorted({op for a in e.args for op in ops_on_flow(o, a) if op in LOSSY or op.endswith((".lower", ".upper", ".casefold", ".swapcase"))})
+                ctx.ob(f"{q}:digest-compared-exactly", not lossy,
+                       "both operands reach compare_digest without case folding" if not lossy else
+                       f"the operands of the digest comparison pass through {lossy}: a response whose Sec-WebSocket-Accept differs from the right value only in letter case "
+                       f"(a different base64 string, not derived from the key sent) is accepted", e.loc, {"path": path_text(o)})
                 ctx.ob(f"{q}:digest-inputs", okf,
                        "compare_digest(base64(sha1(key + RFC GUID)), accept header): one side from the key, the other from the response" if okf else
                        f"digest comparison inputs: left from {[repr(x) for x in a0][:4]}, right from {[repr(x) for x in a1][:4]}; expected key+GUID via sha1/base64 against the accept header",
